@@ -90,18 +90,19 @@ def _labels(rng, p):
 def gen_case(rng, tier):
     explicit = rng.random() < .3
     single = rng.random() < .04
-    p = gen_pomdp.gen_pomdp(rng, nmax=1 if single else 5, min_states=1 if single else 2, tiny=.4, near_twin=.6, ghosts=.3, state_actions=.3,
+    p = gen_pomdp.gen_pomdp(rng, nmax=1 if single else 5, min_states=1 if single else 2, tiny=.4, near_twin=.6, ghosts=.3, state_actions=.3, nondyadic=.25,
+                            tiny_trans=.3, tiny_init=.15,
                             big_rewards=.1, force_reachable=not (explicit and rng.random() < .8))
-    beliefs = gen_pomdp.gen_beliefs(rng, p, n_grid=2, tiny=True)
+    beliefs = gen_pomdp.gen_beliefs(rng, p, n_grid=2, tiny=True, nondyadic=bool(p.get("nondyadic")))
     for be in beliefs:          # how the belief is handed to msdm
         perm = list(range(p["n"]))
         if rng.random() < .5:
             rng.shuffle(perm)
         be.update({"perm": perm, "rep": "dist" if rng.random() < .3 else "dict",
-                   "vec": rng.choice(["ndarray", "ndarray", "list", "tuple", "intarray"]),
+                   "vec": rng.choice(["ndarray", "ndarray", "list", "tuple", "intarray", "float32"]),
                    "npidx": rng.random() < .3, "int01": rng.random() < .3,
                    "own_initial": be["kind"] == "initial" and rng.random() < .7})
-    variant = {"labels": _labels(rng, p), "int01": rng.random() < .3, "dist_types": rng.random() < .3,
+    variant = {"labels": _labels(rng, p), "int01": rng.random() < .3, "dist_types": rng.random() < .3, "share_objects": rng.random() < .4,
                "order": rng.choice(["matrix-first", "belief-first", "dict-first"])}
     return {"pomdp": p, "beliefs": beliefs, "explicit_lists": explicit, "variant": variant}
 
@@ -176,7 +177,10 @@ def case_term(case, res):
                 fqmat(r["next_agentstate"]), dlit(r["pred_dict"]), fqlist(r["pred_vec"]),
                 bnlit(r["belief_next"]), fq(r["belief_reward"])))
         bterms.append("(cb m %s %s, %s)" % (bl, cb_(bo["is_absorbing"]), coqlist(aterms) if aterms else "(@nil (list bool))"))
-    return "let m := %s in (wf m, ome m %s, %s)" % (mk, qten(res["observation_matrix"]), coqlist(bterms))
+    # observation_matrix: compared bit-exactly against the doubles msdm was given in run() (every case); the Coq
+    # comparison against the model's rationals is the same statement only when those are doubles (k/8, 2^-k)
+    ome = "true" if p.get("nondyadic") else "ome m %s" % qten(res["observation_matrix"])
+    return "let m := %s in (wf m, %s, %s)" % (mk, ome, coqlist(bterms))
 
 
 # ---- exact oracle: the property's clauses, tested directly on the implementation's output ----
@@ -313,7 +317,7 @@ def run(ctx):
 
 
 def _run(ctx, tier):
-    ncases = 170 if tier == "quick" else 2500
+    ncases = 150 if tier == "quick" else 2500
     if ctx.replay_case:
         cases = [ctx.replay_case["detail"]["case"]]
     else:
@@ -369,16 +373,31 @@ def _run(ctx, tier):
         sl = res["state_list"]
         P_, R_, absf_, ini_, Ob_ = model_arrays(case, res)
         bi0 = res["belief_initial"]
-        if len(bi0) != 1 or bi0[0][0] != sl or [vlib.frac(x) for x in bi0[0][1]] != ini_ or vlib.frac(bi0[0][2]) != 1:
+        if len(bi0) != 1 or bi0[0][0] != sl or [vlib.frac(x) for x in bi0[0][1]] != [F(float(x)) for x in ini_] \
+                or vlib.frac(bi0[0][2]) != 1:
             ctx.violation("C07:belief-mdp-initial-state-is-not-the-initial-distribution",
                           {"case": case, "belief_initial": bi0}, found=False)
         if any(r["belief_actions"] != res["action_list"] for bo in res["beliefs"] for r in bo["actions"]):
             ctx.violation("C07:belief-mdp-actions-differ-from-action-list", {"case": case}, found=False)
+        # "holds the numbers the functions return": bit-exact against the doubles msdm was given
+        if [[[vlib.frac(x) for x in r] for r in m] for m in res["observation_matrix"]] != \
+                [[[F(float(x)) for x in r] for r in m] for m in Ob_]:
+            ctx.violation("C07:observation_matrix:differs-from-observation_dist",
+                          {"case": case, "observation_matrix": res["observation_matrix"],
+                           "clause": "observation_matrix[a, ns, o] is not observation_dist(a, ns).prob(o)"}, found=True)
+        if res.get("mutated_inputs"):
+            ctx.violation("C07:caller-objects-mutated", {"case": case, "mutated": res["mutated_inputs"]}, found=False)
+        if not res.get("stale_results_unchanged", True):
+            ctx.violation("C07:object-reuse:earlier-results-changed-by-later-calls", {"case": case}, found=False)
+        if res.get("rebuild_first_equal", True) is not True:
+            ctx.violation("C07:object-reuse:same-pomdp-rebuilt-later-in-the-process-differs",
+                          {"case": case, "rebuild_first_equal": res.get("rebuild_first_equal")}, found=False)
+        feats["rebuild_first_checks"] = feats.get("rebuild_first_checks", 0) + int("rebuild_first_equal" in res)
         if not all(res["repeat_equal"]):
             ctx.violation("C07:object-reuse:second-evaluation-on-the-same-objects-differs",
                           {"case": case, "repeat_equal": res["repeat_equal"]}, found=False)
         v_ = case.get("variant", {})
-        for k_ in ("order", "int01", "dist_types"):
+        for k_ in ("order", "int01", "dist_types", "share_objects"):
             key = "variant_%s=%s" % (k_, v_.get(k_))
             feats[key] = feats.get(key, 0) + 1
         key = "labels=%s" % ((v_.get("labels") or {}).get("scheme", "int"))
@@ -434,8 +453,8 @@ def _run(ctx, tier):
                 ai = res["beliefs"][bi]["actions"][j]["ai"]
                 nevals += 1
                 failed = [c for c, okv in zip(CLAUSES, flags) if not okv]
-                if "belief_next_count" in failed and (not be["dyadic"] or case["pomdp"].get("obs_tiny")
-                                                      or case["pomdp"].get("obs_near_twin")):
+                if "belief_next_count" in failed and (not be["dyadic"] or any(
+                        case["pomdp"].get(k_) for k_ in ("obs_tiny", "obs_near_twin", "nondyadic", "trans_tiny", "init_tiny"))):
                     # float arithmetic is exact only for k/8 data: otherwise rounding may split an exact tie
                     failed.remove("belief_next_count")
                 if not failed:
